@@ -73,7 +73,7 @@ func Prop() *core.Prop {
 			if tier == "thorough" {
 				return 20000
 			}
-			return 480
+			return 960
 		},
 		Run:           run,
 		ReplayRepeats: 20,
